@@ -316,6 +316,30 @@ static void *worker_stress(void *arg) {
     }
     return NULL;
 }
+/* A second, independent container of the same kind, used by one more thread alone while the judged threads run: it is not part of any
+ * history, but nothing one instance does may depend on what happens to another (state shared between instances outside their locks
+ * shows as a wrong result in the judged history). */
+static volatile int by_stop;
+static void *bystander(void *arg) {
+    (void) arg;
+    int one = 1; void *p;
+    qvector_t *v = NULL; qlist_t *l = NULL; qhashtbl_t *h = NULL; qtreetbl_t *t = NULL; qlisttbl_t *lt = NULL; qqueue_t *q = NULL; qstack_t *st = NULL;
+    if (K == K_QUEUE) q = qqueue(QQUEUE_THREADSAFE); else if (K == K_STACK) st = qstack(QSTACK_THREADSAFE);
+    else if (K == K_VECTOR) v = qvector(0, sizeof(int), QVECTOR_THREADSAFE); else if (K == K_LIST) l = qlist(QLIST_THREADSAFE);
+    else if (K == K_HASHTBL) h = qhashtbl(3, QHASHTBL_THREADSAFE); else if (K == K_TREETBL) t = qtreetbl(QTREETBL_THREADSAFE);
+    else lt = qlisttbl(K == K_LISTTBLU ? (QLISTTBL_THREADSAFE | QLISTTBL_UNIQUE) : QLISTTBL_THREADSAFE);
+    while (!by_stop) {
+        if (q) { q->pushint(q, 1); q->popint(q); q->popint(q); }
+        else if (st) { st->pushint(st, 1); st->popint(st); st->popint(st); }
+        else if (v) { v->addlast(v, &one); p = v->popfirst(v); free(p); p = v->popfirst(v); free(p); v->getat(v, 5, false); }
+        else if (l) { l->addlast(l, &one, sizeof one); p = l->popfirst(l, NULL); free(p); p = l->popfirst(l, NULL); free(p); }
+        else if (h) { h->putstr(h, "x", "1"); h->remove(h, "nothing"); h->remove(h, "x"); p = h->getstr(h, "x", true); free(p); }
+        else if (t) { t->putstr(t, "x", "1"); t->remove(t, "nothing"); t->remove(t, "x"); p = t->getstr(t, "x", true); free(p); }
+        else if (lt) { lt->putstr(lt, "x", "1"); lt->remove(lt, "nothing"); lt->remove(lt, "x"); p = lt->getstr(lt, "x", true); free(p); }
+    }
+    if (q) q->free(q); if (st) st->free(st); if (v) v->free(v); if (l) l->free(l); if (h) h->free(h); if (t) t->free(t); if (lt) lt->free(lt);
+    return NULL;
+}
 static int run_stress(int threads, int opsper, int rounds, unsigned seed, const char *outf) {
     NT = threads; S_OPS = opsper; S_ROUNDS = rounds; S_SEED = seed;
     vh_hook_locked = h_locked; vh_hook_lock_failed = h_lockfail;
@@ -324,8 +348,15 @@ static int run_stress(int threads, int opsper, int rounds, unsigned seed, const 
     prev_final = vh_malloc(4); strcpy(prev_final, "[]");
     pthread_barrier_init(&bar, NULL, (unsigned) threads);
     pthread_t th[MAXT];
+    /* not on the race-detecting build: the tree table keeps three file-scope statistics counters (_q_treetbl_*_cnt, no container state,
+     * no property speaks of them) that two tables in two threads increment without synchronisation */
+    pthread_t by; by_stop = 0; int have_by = 0;
+#ifndef VH_SANITIZER
+    have_by = pthread_create(&by, NULL, bystander, NULL) == 0;
+#endif
     for (int t = 0; t < threads; t++) pthread_create(&th[t], NULL, worker_stress, (void *) (long) t);
     for (int t = 0; t < threads; t++) pthread_join(th[t], NULL);
+    by_stop = 1; if (have_by) pthread_join(by, NULL);
     rel();
     vh_close();
     return 0;
